@@ -890,6 +890,13 @@ func (g *graph) compile(ctx context.Context, opt *graphCompileOptions) (*composa
 		outputPairs[START] = r.inputStreamConvertPair
 		r.checkPointer = newCheckPointer(inputPairs, outputPairs, g.streamConvertPairOnEdges, opt.checkPointStore)
 
+		for _, keys := range [][]string{opt.interruptBeforeNodes, opt.interruptAfterNodes} {
+			for _, key := range keys {
+				if _, ok := g.nodes[key]; !ok {
+					return nil, fmt.Errorf("interrupt node '%s' is not a node of the graph", key)
+				}
+			}
+		}
 		r.interruptBeforeNodes = opt.interruptBeforeNodes
 		r.interruptAfterNodes = opt.interruptAfterNodes
 		r.options = *opt
